@@ -48,38 +48,38 @@ type C10Case struct {
 }
 
 type c10Key struct {
-	file, pub  string
-	pass       string // right passphrase
-	givePass   string // passphrase given
-	passVar    string // environment variable carrying it
-	keyID      string
-	wantFail   bool
-	apk        bool
+	file, pub string
+	pass      string // right passphrase
+	givePass  string // passphrase given
+	passVar   string // environment variable carrying it
+	keyID     string
+	wantFail  bool
+	apk       bool
 }
 
 var c10Keys = map[string]c10Key{
-	"armored":          {file: "privkey_unprotected.asc", pub: "pubkey"},
-	"binary":           {file: "privkey_unprotected.gpg", pub: "pubkey"},
-	"protected":        {file: "privkey.asc", pub: "pubkey", givePass: "hunter2", passVar: "NFPM_PASSPHRASE"},
-	"protected-binary": {file: "privkey.gpg", pub: "pubkey", givePass: "hunter2", passVar: "FORMAT"},
-	"subkey-only":      {file: "privkey_unprotected_subkey_only.asc", pub: "pubkey"},
-	"keyid-primary":    {file: "privkey_unprotected.asc", pub: "pubkey", keyID: "bc8acdd415bd80b3"},
-	"keyid-subkey":     {file: "privkey_unprotected.asc", pub: "pubkey", keyID: "9890904dfb2ec88a"},
-	"wrong-passphrase": {file: "privkey.asc", pub: "pubkey", givePass: "hunter3", passVar: "NFPM_PASSPHRASE", wantFail: true},
-	"no-passphrase":    {file: "privkey.asc", pub: "pubkey", wantFail: true},
-	"multiple-keys":    {file: "multiple_privkeys.asc", pub: "pubkey", wantFail: true},
-	"keyid-invalid":    {file: "privkey_unprotected.asc", pub: "pubkey", keyID: "xyz", wantFail: true},
-	"key-missing":      {file: "no-such-key.asc", pub: "pubkey", wantFail: true},
-	"second":           {file: "second_priv.asc", pub: "second_pub"},
-	"keyid-decimal":    {file: "decimal_priv.asc", pub: "decimal_pub", keyID: "4399095419976992"},
-	"decimal-no-keyid": {file: "decimal_priv.asc", pub: "decimal_pub"},
-	"pkcs1":            {file: "rsa_unprotected.priv", pub: "rsa_unprotected.pub", apk: true},
-	"pkcs8":            {file: "rsa_pkcs8.priv", pub: "rsa_pkcs8.pub", apk: true},
-	"pkcs8-4096":       {file: "rsa4096.priv", pub: "rsa4096.pub", apk: true},
-	"encrypted-pem":    {file: "rsa.priv", pub: "rsa.pub", givePass: "hunter2", passVar: "FORMAT", apk: true},
+	"armored":               {file: "privkey_unprotected.asc", pub: "pubkey"},
+	"binary":                {file: "privkey_unprotected.gpg", pub: "pubkey"},
+	"protected":             {file: "privkey.asc", pub: "pubkey", givePass: "hunter2", passVar: "NFPM_PASSPHRASE"},
+	"protected-binary":      {file: "privkey.gpg", pub: "pubkey", givePass: "hunter2", passVar: "FORMAT"},
+	"subkey-only":           {file: "privkey_unprotected_subkey_only.asc", pub: "pubkey"},
+	"keyid-primary":         {file: "privkey_unprotected.asc", pub: "pubkey", keyID: "bc8acdd415bd80b3"},
+	"keyid-subkey":          {file: "privkey_unprotected.asc", pub: "pubkey", keyID: "9890904dfb2ec88a"},
+	"wrong-passphrase":      {file: "privkey.asc", pub: "pubkey", givePass: "hunter3", passVar: "NFPM_PASSPHRASE", wantFail: true},
+	"no-passphrase":         {file: "privkey.asc", pub: "pubkey", wantFail: true},
+	"multiple-keys":         {file: "multiple_privkeys.asc", pub: "pubkey", wantFail: true},
+	"keyid-invalid":         {file: "privkey_unprotected.asc", pub: "pubkey", keyID: "xyz", wantFail: true},
+	"key-missing":           {file: "no-such-key.asc", pub: "pubkey", wantFail: true},
+	"second":                {file: "second_priv.asc", pub: "second_pub"},
+	"keyid-decimal":         {file: "decimal_priv.asc", pub: "decimal_pub", keyID: "4399095419976992"},
+	"decimal-no-keyid":      {file: "decimal_priv.asc", pub: "decimal_pub"},
+	"pkcs1":                 {file: "rsa_unprotected.priv", pub: "rsa_unprotected.pub", apk: true},
+	"pkcs8":                 {file: "rsa_pkcs8.priv", pub: "rsa_pkcs8.pub", apk: true},
+	"pkcs8-4096":            {file: "rsa4096.priv", pub: "rsa4096.pub", apk: true},
+	"encrypted-pem":         {file: "rsa.priv", pub: "rsa.pub", givePass: "hunter2", passVar: "FORMAT", apk: true},
 	"encrypted-pem-general": {file: "rsa.priv", pub: "rsa.pub", givePass: "hunter2", passVar: "NFPM_PASSPHRASE", apk: true},
 	"encrypted-pem-wrong":   {file: "rsa.priv", pub: "rsa.pub", givePass: "nope", passVar: "FORMAT", apk: true, wantFail: true},
-	"pem-garbage":      {file: "wrong_key_format.priv", pub: "rsa.pub", apk: true, wantFail: true},
+	"pem-garbage":           {file: "wrong_key_format.priv", pub: "rsa.pub", apk: true, wantFail: true},
 }
 
 var c10PGPKeys = []string{"keyid-decimal", "decimal-no-keyid", "armored", "binary", "protected", "protected-binary", "subkey-only", "keyid-primary", "keyid-subkey", "wrong-passphrase", "no-passphrase", "multiple-keys", "keyid-invalid", "key-missing"}
